@@ -6,7 +6,7 @@ CONSTANTS
   NS = 3
   ECodes = {0}
   TCodes = {222, 123, 312}
-  QuadIds = {4}
+  QuadIds = {2}
   SrcIds = {1, 2, 3}
   Kinds = {"eclipse", "direct"}
   MaxCalls = 2
